@@ -23,6 +23,9 @@ pub enum Point {
         collect_ids: Vec<usize>,
         forced: bool,
     },
+    /// The thread is about to attempt one `push` on its ring (fired first; a callback that wants to
+    /// hold the thread does it here).
+    BeforePush { chan: usize, via: &'static str },
     /// The thread is about to attempt one `push` on its ring. `via` is one of `replay` (a parked
     /// command), `send`, `force`, `exit` (flush of parked commands in `Sender::drop`). `full` is
     /// the ring's state as seen by the producer right now.
@@ -106,9 +109,13 @@ pub(crate) fn chan_of(addr: usize) -> usize {
         .unwrap_or(usize::MAX)
 }
 
-pub(crate) fn push_point(addr: usize, via: &'static str, full: bool) {
+pub(crate) fn push_point(addr: usize, via: &'static str, full: &dyn Fn() -> bool) {
     if enabled() {
         let chan = chan_of(addr);
+        // The callback may park the thread at `BeforePush`; the state of the ring is read after
+        // it has been released, right before the push.
+        fire(|| Point::BeforePush { chan, via });
+        let full = full();
         fire(|| Point::Push { chan, via, full });
     }
 }
